@@ -71,6 +71,7 @@ type sessTable struct {
 }
 
 type sess struct {
+	openDeleted map[string]*int32 // table -> id of the row a transaction left open at Shutdown() had deleted
 	longStrings bool // value() returns long strings for VARCHAR columns (rows that fit into few pages' free space)
 	wideCatalog bool
 	env         *core.Env
@@ -397,8 +398,16 @@ func (s *sess) battery() (map[string][]string, bool) {
 		})
 		s.res.Add("battery_queries", 1)
 		if panicked || r.Err != nil || r.Aborted {
-			s.dead = true
 			s.res.Violate("query-failed", s.tags, s.desc(sql), "%s failed: panic=%q err=%v aborted=%v", sql, msg, r.Err, r.Aborted)
+			openTxn := false
+			for _, t := range s.tags {
+				openTxn = openTxn || t == "open-transaction-at-shutdown"
+			}
+			if openTxn && !panicked && r.Aborted {
+				// (listed finding: scans that reach the orphaned delete mark are aborted) the other access paths are still judged
+				return
+			}
+			s.dead = true
 			return
 		}
 		var rows []string
@@ -412,7 +421,21 @@ func (s *sess) battery() (map[string][]string, bool) {
 		}
 		if exp != nil {
 			if d := rm.DiffMultiset(r.Rows, exp, nil); d != "" {
-				s.res.Violate("battery-vs-model", s.tags, s.desc(sql), "%s [plan %s]: %s", sql, r.Shape, d)
+				kind := "battery-vs-model"
+				if s.openDeleted != nil && t != nil && s.openDeleted[t.t.Name] != nil {
+					// the listed finding C09-open-transaction-at-shutdown is exactly this: the one row the open transaction had deleted
+					// is missing (its delete mark persisted), nothing else differs
+					var without []rm.Row
+					for _, row := range exp {
+						if row[0].I != *s.openDeleted[t.t.Name] {
+							without = append(without, row)
+						}
+					}
+					if len(without) == len(exp)-1 && rm.DiffMultiset(r.Rows, without, nil) == "" {
+						kind = "uncommitted-delete-persisted"
+					}
+				}
+				s.res.Violate(kind, s.tags, s.desc(sql), "%s [plan %s]: %s", sql, r.Shape, d)
 			}
 		}
 	}
@@ -614,6 +637,30 @@ func sessCase(env *core.Env, idx int, prop string) *core.CaseResult {
 			before, idxNonEmpty := s.battery()
 			if s.dead {
 				break
+			}
+			// the LAST clean shutdown of one session in four happens while a transaction (begun through the transaction API) is still open
+			// after it has deleted a row: it never commits, so the reopened database has to show the rows as they were before it
+			// (listed finding C09-open-transaction-at-shutdown: the delete mark stays for ever; only the last cycle, so that nothing else is masked)
+			if c == cycles-1 && r.Intn(4) == 0 && len(s.tabs) > 0 {
+				t := s.tabs[r.Intn(len(s.tabs))]
+				if len(t.t.Rows) > 2 {
+					row := t.t.Rows[r.Intn(len(t.t.Rows))]
+					sql := fmt.Sprintf("DELETE FROM %s WHERE id = %d;", t.t.Name, row[0].I)
+					open := s.db.Begin()
+					var rr sqlx.Result
+					guarded(func() { rr = s.db.Exec(open, sql) })
+					if rr.Err == nil && !rr.Aborted {
+						if s.openDeleted == nil {
+							s.openDeleted = map[string]*int32{}
+						}
+						id := row[0].I
+						s.openDeleted[t.t.Name] = &id
+						s.addSticky("open-transaction-at-shutdown")
+						s.tags = append(s.tags, "open-transaction-at-shutdown")
+						s.log = append(s.log, "left open at Shutdown(): "+sql)
+						res.Add("clean_shutdowns_with_an_open_transaction", 1)
+					}
+				}
 			}
 			if !s.close("clean") {
 				break
